@@ -222,7 +222,7 @@ def _usable_scene(rng, cls):
 
 def execute(run):
     out = {'n_eval': 0, 'sigs': [], 'counters': {}, 'samples': [], 'steps': 0, 'violations': [],
-           'sets': {'model_state_x_op': set(), 'histories': set()}}
+           'sets': {'model_state_x_op': set(), 'histories': set()}, 'log': []}
     cnt = out['counters']
 
     def bump(key, n=1):
@@ -250,12 +250,14 @@ def execute(run):
         if hists is None:
             hists = [gen_history(rng_ops) for _ in range(HIST_PER_RUN)]
         shash = kernel.sha(scene['rows'])
+        out['log'].append(kernel.sha(repr(traj)))
         reported = set()
         for ops in hists:
             cover = set()
             vio, steps, refused = run_history(scene, ops, traj, cover)
             out['n_eval'] += 1
             out['steps'] += steps
+            out['log'].append([ops, steps, refused, repr(vio)])
             bump('fault.refused_call', refused)
             bump('fault.repeated_or_out_of_order_permitted_call',
                  int(nontrivial(ops, 0)))
